@@ -114,6 +114,11 @@ fn case(rng: &mut Rng, idx: u64, rec: &mut Rec) {
     if rng.chance(1, 2) {
         cfg.orig.push(("content-length".into(), body_len.to_string().into_bytes()));
     }
+    if rng.chance(1, 8) {
+        // the field on two lines, another expectation first (Expect is a list: the 100-continue member counts)
+        cfg.orig.push(("expect".into(), b"x-other".to_vec()));
+        rec.cov("request/expect-on-two-lines");
+    }
     cfg.orig.push(("expect".into(), b"100-continue".to_vec()));
     if rng.chance(1, 6) {
         cfg.orig.push(("connection".into(), b"close".to_vec()));
@@ -351,6 +356,7 @@ impl Property for P {
         v.push(("look/final-with-fields/inside-rest-of-head".into(), 10));
         v.push(("late-100-twice".into(), 50));
         v.push(("flow-produced-by-a-redirect".into(), 100));
+        v.push(("request/expect-on-two-lines".into(), 100));
         v.push(("refused-by-redirect/not-followed".into(), 20));
         v.push(("refused-by-redirect/followed-without-body".into(), 20));
         v.push(("caller-goes-by-return-value/trickle".into(), 100));
